@@ -124,7 +124,11 @@ func (c *Ctx) Run(which, key string) *interp.RunResult {
 		c.runs[ck] = nil
 		return nil
 	}
+	t0 := time.Now()
 	r := e.Run(fn)
+	if os.Getenv("VERIF_TIMING") != "" {
+		fmt.Printf("TIMING run %s: %.2fs, %d events\n", key, time.Since(t0).Seconds(), len(r.Events))
+	}
 	c.runs[ck] = r
 	c.Stats["entries_interpreted"]++
 	c.Stats["events"] += len(r.Events)
